@@ -117,6 +117,16 @@ CLAIMED["C19"] = _entry(
     "static analysis: pattern-anchored CFG path rules on the apportionment loops, linear/polynomial canonical forms for remainder and budget relations, cols/rows unit inference",
 )
 
+CLAIMED["C08"] = _entry(
+    "Static analysis decides the structural half of the focus contract: every focus_position setter validates (range / membership test raising IndexError, TypeError converted) before the "
+    "store and the three list containers share one setter body; selectable() of Pile/Columns/GridFlow is computed from the current contents; Frame repairs the focus when the focused "
+    "header/footer is removed; every keypress returns None, the key or a forwarded result; each container keypress routes the key to its focus child only; get/set_focus_path walk the same "
+    "two properties in the same order; focus moves by keys and cursor moves are guarded by the target's selectable(); the dict-like contents objects are well-founded mappings. "
+    "Index validity after arbitrary edit histories and navigation targets are value-level and not decided (level 'other').",
+    "DESIGN.md section 3, C08; engines E8, E11, E12, E6",
+    "static analysis: guard dominance on the CFG, sibling body comparison, return-value provenance, def-use routing of the key to the focus expression, ABC well-foundedness",
+)
+
 _PENDING = "check not built yet in this session (planned per DESIGN.md section 3); listed here until its static rules exist and pass on the pinned tree"
 NOT_APPLICABLE = {pid: _PENDING for pid in [f"C{i:02d}" for i in range(1, 21)] if pid not in CLAIMED and pid != "C07"}
 NOT_APPLICABLE["C07"] = (
